@@ -141,7 +141,12 @@ ColourPayload(t) == Concat([j \in 1..PerTex |-> BlockNo((t - 1) * PerTex + j)])
 AlphaBytes(j) == [k \in 1..8 |-> ((2 * (k - 1) + j) % 16) + 16 * ((2 * (k - 1) + 1 + j) % 16)]
 AlphaPayload(t) == Concat([j \in 1..PerTex |-> AlphaBytes(j + t) \o BlockNo((t - 1) * PerTex + j)])
 
+\* ETC1A4 with a uniform alpha word (fully transparent, fully opaque, mid): the colour rules hold whatever the alpha
+UniformAlpha(a) == [k \in 1..8 |-> a + 16 * a]
+UniformAlphaPayload(a) == Concat([j \in 1..PerTex |-> UniformAlpha(a) \o BlockNo(7 * j + a)])
+
 GenCases == { <<"etc1", t>> : t \in 1..NTex }
+            \cup { <<"etc1a4u", a>> : a \in {0, 15, 7} }
             \cup { <<"etc1a4", t>> : t \in 1..(IF Tier = "quick" THEN 4 ELSE NTex) }
             \cup { <<"small", f>> : f \in EtcFormats }
 
@@ -154,6 +159,7 @@ Emit ==
   CASE c[1] \in {"root", "bucket"} -> TRUE
     [] c[1] = "etc1"   -> EmitTex(ETC1, Side, Side, ColourPayload(c[2]))
     [] c[1] = "etc1a4" -> EmitTex(ETC1A4, Side, Side, AlphaPayload(c[2]))
+    [] c[1] = "etc1a4u" -> EmitTex(ETC1A4, Side, Side, UniformAlphaPayload(c[2]))
     [] c[1] = "small"  ->
          \* non-square, so that width and height cannot be confused
          LET w == 16  h == 8  n == (w \div 4) * (h \div 4) IN
